@@ -24,7 +24,7 @@ package fclient
 // ---------------------------------------------------------------- C13: federation request authentication
 
 //@ func isSafeInHTTPQuotedString
-//@   property C13
+//@   property C13, C18:safety
 //@   ensures qdtext: result <==> (forall i int :: 0 <= i && i < len(text) ==> qdtextByte(text[i]))
 //@   loop 1: invariant 0 <= i && i <= len(text) && (forall j int :: 0 <= j && j < i ==> qdtextByte(text[j]))
 //@   assigns nothing
@@ -34,7 +34,7 @@ package fclient
 //@   assigns nothing
 
 //@ func VerifyHTTPRequest
-//@   property C13
+//@   property C13, C18:safety
 //@   purecallbacks
 //@   requires req != nil && req.URL != nil && req.Body != nil && keys != nil && unixNano(now) >= 0
 //@   ensures parsed: result[1].Code == 200 ==> (called(readHTTPRequest) && ret(readHTTPRequest, 1) == nil && result[0] == ret(readHTTPRequest, 0))
@@ -45,7 +45,7 @@ package fclient
 //@   calls Marshal signed-object: true
 
 //@ func readHTTPRequest
-//@   property C13
+//@   property C13, C18:safety
 //@   requires req != nil && req.URL != nil && req.Body != nil
 //@   ensures method-uri: err == nil ==> (result[0] != nil && result[0].fields.Method == req.Method && result[0].fields.RequestURI == extcall("(*net/url.URL).RequestURI", req.URL))
 //@   ensures json-body: (err == nil && result[0].fields.Content != nil) ==> (mediaTypeOK(extcall("(net/http.Header).Get", req.Header, "Content-Type")) && mediaTypeOf(extcall("(net/http.Header).Get", req.Header, "Content-Type")) == "application/json" && utf8Valid(str(result[0].fields.Content)))
@@ -53,13 +53,13 @@ package fclient
 //@   loop 1: invariant result.fields.Signatures != nil ==> (result.fields.Origin != "" && get(result.fields.Signatures, result.fields.Origin) != nil && result.fields.Origin in result.fields.Signatures)
 
 //@ func (*FederationRequest).Sign
-//@   property C13
+//@   property C13, C18:safety
 //@   requires r != nil
 //@   ensures other-signer-refused: (old(r.fields.Origin) != "" && old(r.fields.Origin) != serverName) ==> err != nil
 //@   calls SignJSON origin-signs-all-fields: signingName == string(serverName) && keyID == old(keyID) && message == ret(Marshal, 0)
 
 //@ func (*FederationRequest).HTTPRequest
-//@   property C13
+//@   property C13, C18:safety
 //@   requires r != nil
 //@   ensures uri-round-trips: err == nil ==> extcall("(*net/url.URL).RequestURI", result[0].URL) == r.fields.RequestURI
 //@   calls Add header-only-if-quotable: key == "Authorization" && allQd(string(r.fields.Origin)) && allQd(string(r.fields.Destination))
